@@ -20,6 +20,7 @@ func C08(c *Ctx) {
 	c.importKeyRule("C08-4")
 	c.createFunctionShapeRule("C08-5", "variadic")
 	c.derefRule("C08-6")
+	c.genericShapesRule("C08-7", "receiver")
 
 	r.Rule("C08-2", "legality: notation parser succeeds only if ¬(Reverse ∧ Style==return); CreateFunction only if ¬(Reverse ∧ 0<len(additional args)) ∧ ¬(Receiver≠\"\" ∧ source type external); parseMethod only with ≥1 parameter and ≥1 result")
 	if fn := c.notationParser(); fn != nil {
@@ -60,7 +61,7 @@ func C08(c *Ctx) {
 		}
 	}
 
-	r.Rule("C08-3", "IR feeding: Function.{Name,Receiver,DstVarStyle,RetError,Src,Dst,AdditionalArgs} come from Method.Name(), Opts.Receiver, Opts.Style, RetError(), createVar(SrcVar()), createVar(DstVar()), createVar(param i≥1); createVar: Name = declared name, default only under name==\"\"; Pointer/Type from util.Deref of the variable's type; defaults are the constants src, dst (swapped under Reverse) and arg%d with the loop index; the receiver name replaces the source name only")
+	r.Rule("C08-3", "IR feeding: Function.{Name,Receiver,DstVarStyle,RetError,Src,Dst,AdditionalArgs} come from Method.Name(), Opts.Receiver, Opts.Style, RetError(), createVar(SrcVar()), createVar(DstVar()), createVar(param i≥1); createVar: Name = declared name, default only under name==\"\" ∨ name==\"_\" (and never the declared blank identifier); Pointer/Type from util.Deref of the variable's type; defaults are the constants src, dst (swapped under Reverse) and arg%d with the loop index; the receiver name replaces the source name only")
 	if cf == nil {
 		return
 	}
@@ -242,7 +243,7 @@ func C08(c *Ctx) {
 				if nv := ff["Name"]; nv != nil {
 					rc := c.Reach(cv)
 					cases := rc.Cases(nv)
-					okN = len(cases) == 2
+					okN = len(cases) == 2 || len(cases) == 3
 					for _, cs := range cases {
 						t := c.O.Of(cs.V)
 						isDecl := t.Kind == "call" && strings.HasSuffix(t.Name, ").Name") && t.Contains(func(s *core.Term) bool { return s.String() == vparam })
@@ -252,17 +253,24 @@ func C08(c *Ctx) {
 						notEmpty := c.M(false, eqConst(func(x *core.Term) bool {
 							return x.Kind == "call" && strings.HasSuffix(x.Name, ").Name")
 						}, `""`))
+						blank := c.M(true, eqConst(func(x *core.Term) bool {
+							return x.Kind == "call" && strings.HasSuffix(x.Name, ").Name")
+						}, `"_"`))
+						notBlank := c.M(false, eqConst(func(x *core.Term) bool {
+							return x.Kind == "call" && strings.HasSuffix(x.Name, ").Name")
+						}, `"_"`))
 						switch {
 						case isDecl:
-							okN = okN && cs.Cond.Implies(notEmpty)
+							// the blank identifier is no name: the body could not refer to the operand
+							okN = okN && cs.Cond.Implies(notEmpty) && cs.Cond.Implies(notBlank)
 						case t.Kind == "param":
-							okN = okN && cs.Cond.Implies(empty)
+							okN = okN && cs.Cond.Implies(empty, blank)
 						default:
 							okN = false
 						}
 					}
 				}
-				r.Check("C08-3", k+"Name", c.InstrPos(a), okN, "Var.Name must be the declared name, the default only when the declared name is empty")
+				r.Check("C08-3", k+"Name", c.InstrPos(a), okN, "Var.Name must be the declared name – never the blank identifier, which the function body could not refer to (`dst.V = _.V`) – and the default only when the declared name is empty or blank")
 				r.Check("C08-3", k+"Pointer", c.InstrPos(a), ff["Pointer"] != nil && isDeref(c.O.Of(ff["Pointer"]), "1"), "Var.Pointer must be the pointer flag of util.Deref(v.Type())")
 				tt := ff["Type"]
 				okT := tt != nil && c.O.Of(tt).IsCallTo("("+pUtil+"ImportNames).TypeName") && isDeref(c.O.Of(tt).Args[1], "0")
